@@ -49,6 +49,10 @@ def opsLoop (s0 : Sp K) (nops : Nat) (out0 : String) : P String := do
       | "get" => do
         let i ← pNat; let j ← pNat
         pure (s, outcome ((Sp.get s i j).map wOpt))
+      | "prod" => do
+        let x : Array K ← pArr; let y : Array K ← pArr
+        let w (r : Res (Array K)) : String := match r with | .ok v => wArr v | .error e => "!" ++ toString e
+        pure (s, s!"ok {w (Sp.multiply s x)} / {w (Sp.transposeMultiply s y)}")
       | _ => throw s!"unknown sparse op {op}" : P (Sp K × String))
     s := s'
     out := out ++ s!" ; {op} {o} | {dump s} | {views s (s.rows / 2) (s.cols / 2)}"
